@@ -4,8 +4,8 @@ import (
 	"fmt"
 	"go/token"
 	"go/types"
-	"os"
 	"golang.org/x/tools/go/ssa"
+	"os"
 )
 
 // staticCallers: the static call sites of fn in the daemon's packages.
@@ -102,7 +102,6 @@ func cmdBody(p *Prog, fn *ssa.Function) []*ssa.Function {
 	return out
 }
 
-
 // carrierFieldUp: a is a field path on a parameter (or method receiver) of a
 // function: the origins of the values that field was initialised with in the
 // struct literals handed to the function at its static call sites, or bound
@@ -194,7 +193,6 @@ func carrierFieldUp(p *Prog, a *Org, depth int) []*Org {
 	}
 	return out
 }
-
 
 // structParamFieldUp: a is a field path on a by-value struct parameter: the
 // origins of that field in the struct values handed to the function at its
